@@ -1418,7 +1418,15 @@ fn assignment_stmt_to_asg_stmt(
         // }
     }
     let expr = expr_to_asg_texpr(assignment_stmt.rhs(), context).unwrap(); // rhs of `=` operator
+    // Assigning to an element of a const symbol mutates the symbol, just as assigning to the symbol does.
+    // (Types that are not implemented yet carry no const-ness.)
+    let is_mutating_const = indexed_identifier.identifier().is_ok()
+        && !matches!(typ, Type::ToDo)
+        && typ.is_const();
     let lvalue = asg::LValue::IndexedIdentifier(indexed_identifier);
+    if is_mutating_const {
+        context.insert_error(MutateConstError, assignment_stmt);
+    }
     Some(asg::Assignment::new(lvalue, expr).to_stmt())
 }
 
